@@ -218,16 +218,23 @@ def same_under(I, ev, got, full):
     def red(t):
         n = 0
         while isinstance(t, Ite) and n < 20:
-            parts = t.c.args if isinstance(t.c, Op) and t.c.op == "and" else [t.c]
-            if all(p in g for p in parts):
+            if implies(ev.guard, t.c)[0]:
                 t = t.a
-            elif any(not_(p) in g for p in parts):
+            elif implies(ev.guard, not_(t.c))[0]:
                 t = t.b
             else:
                 break
             n += 1
         return t
-    return red(got) == red(full)
+    def deep(t, depth=0):
+        t = red(t)
+        if isinstance(t, Op) and depth < 6:
+            from ..terms import rebuild
+            args = tuple(deep(a, depth + 1) for a in t.args)
+            if args != t.args:
+                return rebuild(t.op, args)
+        return t
+    return deep(got) == deep(full)
 
 
 def check_json_order(rep, prog):
